@@ -486,6 +486,187 @@ def run(loader, R, tier):
                                  " / ".join(wants)))
     R.floor("C container wrappers", nw, 13)
 
+    # --------------------------------------------------------------- R42.10
+    # nullary C constructors (basic_const_<X>, basic_set_<X>) hand out the
+    # core object of the same name, and no two of them hand out the same one
+    R.rule("R42.10", "nullary C constructors return the core object their "
+                     "name says, each a different one")
+    ALIAS = {"infinity": "Inf", "neginfinity": "NegInf",
+             "complex_infinity": "ComplexInf", "nan": "Nan"}
+    given = {}
+    nnull = 0
+    for f in sorted(ec, key=lambda f: f["n"]):
+        m = None
+        for pre in ("basic_const_", "basic_set_"):
+            if f["n"].startswith(pre) and len(f.get("params", ())) == 1:
+                m = f["n"][len(pre):]
+        if m is None:
+            continue
+        src = None
+        for n in walk(f["body"]):
+            if n.get("k") in ("bin", "op") and n.get("op") == "=" \
+                    and len(n.get("a", ())) == 2:
+                r = n["a"][1]
+                while r.get("k") in ("cast", "ctor") and len(
+                        [a for a in r.get("a", ())
+                         if a.get("k") != "defarg"]) == 1:
+                    r = [a for a in r["a"] if a.get("k") != "defarg"][0]
+                if r.get("k") == "ref" and r.get("d") == "global":
+                    src = r["n"]
+                elif r.get("k") == "call" and not [
+                        a for a in r.get("a", ())
+                        if a.get("k") != "defarg"]:
+                    src = r["n"]
+        if src is None:
+            continue
+        nnull += 1
+        R.instance("R42.10", f["n"], sample={"function": f["n"],
+                                              "returns": src})
+        want = ALIAS.get(m, m)
+        if src != want:
+            R.violation(
+                "R42.10", f["n"], prog.loc(f),
+                "%s hands out SymEngine::%s, not SymEngine::%s: the C "
+                "function does not return what its C++ counterpart returns"
+                % (f["n"], src, want))
+        elif src in given:
+            R.violation(
+                "R42.10", f["n"], prog.loc(f),
+                "%s and %s hand out the same core object SymEngine::%s"
+                % (f["n"], given[src], src))
+        given.setdefault(src, f["n"])
+    R.floor("nullary C constructors", nnull, 15)
+
+    # ---------------------------------------------------------------- R42.9
+    # enum-valued C integers: an int parameter that selects a C++ enumerator
+    # is converted by a cast of the parameter (every value preserved), not by
+    # a test that can only produce some of the enumerators
+    R.rule("R42.9", "a C integer that stands for a C++ enumeration reaches "
+                    "it through a cast, not through a test that drops "
+                    "enumerators")
+    enum_size = {qn: {qn + "::" + e["n"] for e in en["enumerators"]}
+                 for qn, en in prog.enums.items()}
+    if "SymEngine::EvalfDomain" not in enum_size:
+        raise AnalysisBroken("enum SymEngine::EvalfDomain not in the fact "
+                             "base")
+    nen = 0
+    for f in ec:
+        ints = {p["n"] for p in f.get("params", ())
+                if strip_type(p["t"]) in ("int", "unsigned int", "long",
+                                          "unsigned long", "bool")}
+        for n in walk(f["body"]):
+            if n.get("k") not in ("call", "mcall") or not n.get("u"):
+                continue
+            g = prog.functions.get(n["u"]) or prog.header(n["u"]) or {}
+            for fp, a in zip(g.get("params", ()), n.get("a", ())):
+                et = strip_type(fp.get("t") or "")
+                if et not in enum_size or len(enum_size[et]) < 3:
+                    continue
+                used = {x["n"] for x in walk(a) if x.get("k") == "ref"
+                        and x.get("d") == "param" and x["n"] in ints}
+                if not used:
+                    continue
+                nen += 1
+                key = "%s:%s" % (f["n"], ",".join(sorted(used)))
+                b = a
+                while b.get("k") in ("ctor",) and len(b.get("a", ())) == 1:
+                    b = b["a"][0]
+                by_cast = b.get("k") == "cast" and b.get("a") \
+                    and b["a"][0].get("k") == "ref"
+                picked = {x["q"] for x in walk(a) if x.get("k") == "ref"
+                          and x.get("d") == "enum"}
+                R.instance("R42.9", key, sample={
+                    "function": f["n"], "enumeration": short(et),
+                    "by_cast": bool(by_cast),
+                    "enumerators_selected": sorted(short(x) for x in picked)})
+                if not by_cast and picked and len(picked) < len(
+                        enum_size[et]):
+                    R.violation(
+                        "R42.9", key, prog.loc(f, n.get("l")),
+                        "%s maps the C integer `%s` to %s through a test "
+                        "that can only give %s of its %d enumerators (%s): "
+                        "the C function no longer agrees with the C++ "
+                        "function for the remaining value(s)" % (
+                            f["n"], ",".join(sorted(used)), short(et),
+                            len(picked), len(enum_size[et]),
+                            ", ".join(sorted(short(x) for x in picked))))
+    R.floor("C integers handed over as C++ enumerations", nen, 1)
+
+    # ---------------------------------------------------------------- R42.8
+    # alias safety: C callers work in place (basic_mul(s, s, t)), so an
+    # output handle may be the same object as an input handle.  Within one C
+    # function every input handle is read before the first output handle is
+    # written: statement order "write an output ... then read a const input"
+    # computes the later result from an overwritten operand.
+    ec_usrs = {f["u"] for f in ec}
+    R.rule("R42.8", "no const input handle is read after an output handle "
+                    "has been written (in-place calls stay correct)")
+    nal = 0
+    for f in ec:
+        outs = {p["n"] for p in f.get("params", ())
+                if p["t"].replace(" ", "") == "CRCPBasic_C*"}
+        ins = {p["n"] for p in f.get("params", ())
+               if p["t"].replace(" ", "").startswith("constCRCPBasic_C*")}
+        if not outs or not ins:
+            continue
+        # statements in program order (try bodies and blocks flattened)
+        seq = []
+
+        def flat(st):
+            k = st.get("k")
+            if k in ("{}",):
+                for x in st.get("s", ()):
+                    flat(x)
+            elif k == "try":
+                flat(st.get("b") or {})
+            elif k in ("if", "for", "forr", "while", "do"):
+                seq.append(("cond", st))
+                for part in ("t", "e", "b"):
+                    if st.get(part):
+                        flat(st[part])
+            elif k in ("expr", "decl", "return"):
+                seq.append(("stmt", st))
+        flat(f["body"])
+        written = None
+        nal += 1
+        bad = None
+        for kind, st in seq:
+            node = st.get("c") if kind == "cond" else st
+            if node is None:
+                continue
+            # reads of inputs in this statement
+            reads = [x["n"] for x in walk(node) if x.get("k") == "ref"
+                     and x.get("d") == "param" and x.get("n") in ins]
+            if written and reads and bad is None:
+                bad = (written, reads[0], st.get("l"))
+            # writes of outputs: assignment through basic_rcp(out) / ->m, or
+            # the handle passed as first argument to another C function
+            w = None
+            for n in walk(node):
+                if n.get("k") in ("bin", "op") and n.get("op") == "=" \
+                        and n.get("a"):
+                    for x in walk(n["a"][0]):
+                        if x.get("k") == "ref" and x.get("n") in outs:
+                            w = x["n"]
+                if n.get("k") == "call" and n.get("u") in ec_usrs \
+                        and n.get("a"):
+                    a0 = n["a"][0]
+                    for x in walk(a0):
+                        if x.get("k") == "ref" and x.get("n") in outs:
+                            w = x["n"]
+            if w and not written:
+                written = (w, st.get("l"))
+        R.instance("R42.8", f["n"])
+        if bad:
+            R.violation(
+                "R42.8", f["n"], prog.loc(f, bad[2]),
+                "%s reads the input handle `%s` (line %s) after it has "
+                "written the output handle `%s` (line %s): when a C caller "
+                "passes the same handle for both (in-place use) the later "
+                "part is computed from the overwritten value" % (
+                    f["n"], bad[1], bad[2], bad[0][0], bad[0][1]))
+    R.floor("C functions with input and output handles", nal, 100)
+
     # ---------------------------------------------------------------- R42.6
     # value-preserving hand-over of integers: an integer parameter of a C
     # function reaches the C++ API only through a parameter type that can
